@@ -1,12 +1,21 @@
 #!/bin/bash
-# run_seed.sh <seed-id> <property> [tier]  - applies the seeded change to /repo, runs the check, undoes it.
+# run_seed.sh <seed-id> <property> [tier]
+# Runs the property's check against the seeded change. The change is applied
+# to a scratch worktree of /repo and the check runs from a scratch copy of
+# /verif (VERIF_REPO / VERIF_DIR), so neither /repo's working tree nor the
+# committed evidence is touched and other checks may run at the same time.
+# (Equivalent to: git -C /repo apply <patch>; ./check ...; git -C /repo checkout -- .)
 set -u
 id="$1"; prop="$2"; tier="${3:-quick}"
-cd /verif
-git -C /repo diff --quiet || { echo "/repo has local changes"; exit 2; }
-git -C /repo apply --3way /verif/seeded/$id/patch.diff 2>/dev/null || git -C /repo apply /verif/seeded/$id/patch.diff || { echo "patch does not apply"; exit 2; }
-timeout 1500 ./check $prop $tier > /tmp/mut/$id.check.$prop.log 2>&1; rc=$?
-git -C /repo reset -q --hard HEAD
-echo "seed=$id prop=$prop tier=$tier exit=$rc $(grep -c '^VIOLATION' /tmp/mut/$id.check.$prop.log) violation line(s)"
-grep -m2 "counterexample" /tmp/mut/$id.check.$prop.log | cut -c1-300
-grep -m3 "^INTERNAL\|^INCONCLUSIVE" /tmp/mut/$id.check.$prop.log | cut -c1-300
+work=$(mktemp -d /var/tmp/seedrun.XXXXXX)
+trap 'git -C /repo worktree remove --force "$work/repo" 2>/dev/null; rm -rf "$work"; git -C /repo worktree prune' EXIT
+git -C /repo worktree add -q --detach "$work/repo" HEAD || { echo "cannot create worktree"; exit 2; }
+git -C "$work/repo" apply --3way /verif/seeded/$id/patch.diff 2>/dev/null || git -C "$work/repo" apply /verif/seeded/$id/patch.diff || { echo "patch does not apply"; exit 2; }
+mkdir -p "$work/verif" /var/tmp/seedlogs
+rsync -a --exclude .git --exclude replay --exclude evidence /verif/ "$work/verif/"
+mkdir -p "$work/verif/evidence"
+log=/var/tmp/seedlogs/$id.check.$prop.log
+(cd "$work/verif" && VERIF_REPO="$work/repo" timeout 1500 ./check $prop $tier) > $log 2>&1; rc=$?
+echo "seed=$id prop=$prop tier=$tier exit=$rc $(grep -c '^VIOLATION' $log) violation line(s)"
+grep -m2 "counterexample" $log | cut -c1-300
+grep -m3 "^INTERNAL\|^INCONCLUSIVE" $log | cut -c1-300
